@@ -9,11 +9,13 @@ import TgModel.Lemmas.HostLemmas
 namespace Tg.C07
 open Host
 
-/-- **history independence**: after any history of edits and root selections that ends with a
+/-- **history independence** (histories in which every text change is announced to the host):
+after any history of edits and root selections that ends with a
 root selection (the server re-selects the root after every edit), what queries on workspace
 files can observe — file set, root, per-file content and include map — equals what a freshly
 started host computes from the final file system and the final root alone. -/
-theorem history_independent (env : Env) (fuel : Nat) (pre : List Op) (p : Path) (db : Db)
+theorem history_independent (env : Env) (fuel : Nat) (pre : List Op) (hnd : ∀ op ∈ pre, op.isDisk = false)
+    (p : Path) (db : Db)
     (hdb : (run env fuel (pre ++ [.selectRoot p])).db = some db) :
     (fresh env fuel (run env fuel (pre ++ [.selectRoot p])).fs p).map observe = some (observe db) := by
   rw [run_snoc] at hdb ⊢
@@ -37,12 +39,37 @@ theorem history_independent (env : Env) (fuel : Nat) (pre : List Op) (p : Path) 
           | none => rw [hcp] at hc; simp at hc
           | some t => exact ⟨t, rfl⟩
     obtain ⟨t, ht⟩ := hsome
-    have hfs := content_tracks_fs env fuel pre d0 hpre p t ht
+    have hfs := content_tracks_fs env fuel pre hnd d0 hpre p t ht
     unfold fresh
     rw [hfs]
     simp only []
     have := setRoot_deterministic env (run env fuel pre).fs fuel p (({} : Db).setContent p t) d0
       (by simp [Db.setContent, ht])
+    rw [this, hdb]
+    rfl
+
+/-- **history independence, with files changing on disk**: whatever happened before — edits, root
+selections, and files changed on disk behind the host's back (`disk`) in any order, the current
+root included — once the client sends a document's text and the server selects it as root (what
+`didOpen`/`didChange` do), the observable state equals what a freshly started host computes from the
+final file system and that root alone. -/
+theorem history_independent_any (env : Env) (fuel : Nat) (pre : List Op) (p : Path) (t : Text) (db : Db)
+    (hdb : (run env fuel (pre ++ [.edit p t, .selectRoot p])).db = some db) :
+    (fresh env fuel (run env fuel (pre ++ [.edit p t, .selectRoot p])).fs p).map observe = some (observe db) := by
+  have hrun : run env fuel (pre ++ [.edit p t, .selectRoot p]) =
+      step env fuel (step env fuel (run env fuel pre) (.edit p t)) (.selectRoot p) := by
+    simp [run, List.foldl_append]
+  rw [hrun] at hdb ⊢
+  simp only [step] at hdb ⊢
+  cases hpre : (run env fuel pre).db with
+  | none => rw [hpre] at hdb; simp at hdb
+  | some d0 =>
+    rw [hpre] at hdb
+    simp only [Option.map_some, Option.bind_some] at hdb
+    unfold fresh
+    simp only [if_true]
+    have := setRoot_deterministic env (fun q => if q = p then some t else (run env fuel pre).fs q) fuel p
+      (({} : Db).setContent p t) (d0.setContent p t) (by simp [Db.setContent])
     rw [this, hdb]
     rfl
 
@@ -62,6 +89,14 @@ example :
     let h := [Op.edit 1 20, Op.edit 2 21, Op.edit 0 11, Op.selectRoot 0, Op.edit 0 10, Op.selectRoot 0]
     ((run demoEnv 50 h).db.map observe) =
       some (Obs.mk (some 0) [1, 0] [some 20, some 10] [[], [(0, 1)]]) := by
+  decide
+
+/-- non-vacuity of `history_independent_any`: file 1 is opened, then included by 0, changes on disk twice
+while 2 is the root, and becomes the root again with its old text -/
+example :
+    let h := [Op.edit 1 20, Op.selectRoot 1, Op.edit 0 10, Op.selectRoot 0, Op.disk 1 21, Op.selectRoot 0,
+              Op.edit 2 22, Op.selectRoot 2, Op.disk 1 20, Op.edit 1 20, Op.selectRoot 1]
+    ((run demoEnv 50 h).db.map observe) = some (Obs.mk (some 1) [1] [some 20] [[]]) := by
   decide
 
 end Tg.C07
